@@ -282,6 +282,14 @@ def one(res, W, rng, hist, seg, tls, enabled, raising_name, via_proxy=False):
         res.count("timing_checked")
         i += 1
         j += 1
+    if ok and run.servers:
+        # (C07 through the application) every ping was answered by exactly one pong with the same payload, in order
+        want = [ev["ctl"][1] for ev in evs if "ctl" in ev and ev["ctl"][0] == "on_ping"]
+        pongs = [f.payload for (t, f) in run.servers[0].client_frames if f.opcode == R.PONG]
+        res.count("app_pongs_checked", len(want))
+        if pongs != want:
+            bad("app-pongs", f"pings {want!r} answered by pongs {pongs!r}", callback="on_ping")
+            ok = False
     if ok:
         res.sample(case, cap=3)
 
